@@ -14,6 +14,8 @@ M_REL = ("MC_StunClient.tla", "MC_StunClient_reliable.cfg", CLIENT_ACTIONS)
 M_UNREL = ("MC_StunClient.tla", "MC_StunClient_nomech.cfg", CLIENT_ACTIONS)
 M_ST = ("MC_StunClient.tla", "MC_StunClient_st.cfg", ("SendRequest", "Recv", "OnTimeout"))
 M_ST_REL = ("MC_StunClient.tla", "MC_StunClient_st_rel.cfg", ("SendRequest", "Recv", "OnTimeout"))
+M_ST_REL_APPS = ("MC_StunClient.tla", "MC_StunClient_st_rel_apps.cfg", ("SendRequest", "Recv", "OnTimeout"))
+M_REL_APPS = ("MC_StunClient.tla", "MC_StunClient_reliable_apps.cfg", CLIENT_ACTIONS)
 M_LT = ("MC_CredLT.tla", "MC_CredLT.cfg", ("Send", "Next"))
 M_LT_RFC = ("MC_CredLT.tla", "MC_CredLT_rfc.cfg", ("Send", "Next"))
 def sched_model(rc, rm):
@@ -34,7 +36,7 @@ MODELS = {
     "C10": [M_ST_REL, M_REL],
     "C11": [M_REL, M_UNREL] + SCHED_QUICK + [("TimerLive.tla", "TimerLive.cfg", ("Send", "Fire", "Tick", "Respond"))],
     "C12": [M_REL, M_UNREL],
-    "C13": [M_ST_REL, M_LT],
+    "C13": [M_ST_REL_APPS, M_REL_APPS, M_LT],
     "C15": [M_UNREL],
     "C17": [M_REL, M_UNREL, M_ST_REL],
 }
